@@ -69,32 +69,92 @@ func r16a(c *core.Ctx) {
 		return
 	}
 	var udp, tcp *ssa.Call
+	legOf := func(cc *ssa.Call) string {
+		if !strings.HasSuffix(core.CallName(cc), ").ExchangeContext") || len(cc.Call.Args) == 0 && !cc.Call.IsInvoke() {
+			return ""
+		}
+		recv := cc.Call.Value
+		if !cc.Call.IsInvoke() {
+			recv = cc.Call.Args[0]
+		}
+		if ld, ok := core.Strip(recv).(*ssa.UnOp); ok {
+			if fa, ok := ld.X.(*ssa.FieldAddr); ok {
+				switch core.FieldAddrRef(fa).String() {
+				case "udpWithFallback.u":
+					return "udp"
+				case "udpWithFallback.t":
+					return "tcp"
+				}
+			}
+		}
+		return ""
+	}
+	ctxP, qP := fn.Params[1], fn.Params[2]
+	tcpArgsOK := false
 	for _, call := range core.Calls(fn) {
 		cc, ok := call.(*ssa.Call)
 		if !ok {
 			continue
 		}
-		n := core.CallName(cc)
-		if !strings.HasSuffix(n, ").ExchangeContext") {
-			continue
-		}
-		switch core.Expr(cc.Call.Args[0]) {
-		case "u.u":
+		switch legOf(cc) {
+		case "udp":
 			udp = cc
-		case "u.t":
+		case "tcp":
 			tcp = cc
+			a := core.CallArgs(cc)
+			tcpArgsOK = a[1] == ssa.Value(ctxP) && a[2] == ssa.Value(qP)
+		}
+	}
+	if tcp == nil {
+		// the TCP leg may sit in a helper that returns exactly the pair of u.t.ExchangeContext(ctx, q) on every path
+		for _, call := range core.Calls(fn) {
+			hc, ok := call.(*ssa.Call)
+			h := core.StaticCallee(call)
+			if !ok || h == nil || h.Pkg != fn.Pkg || h.Blocks == nil {
+				continue
+			}
+			var inner *ssa.Call
+			for _, c2 := range core.Calls(h) {
+				if cc, ok := c2.(*ssa.Call); ok && legOf(cc) == "tcp" {
+					inner = cc
+				}
+			}
+			if inner == nil {
+				continue
+			}
+			fwd := true
+			for _, ret := range returnsOf(h) {
+				if len(ret.Results) != 2 {
+					fwd = false
+					continue
+				}
+				e0, ok0 := ret.Results[0].(*ssa.Extract)
+				e1, ok1 := ret.Results[1].(*ssa.Extract)
+				if !ok0 || !ok1 || e0.Tuple != ssa.Value(inner) || e1.Tuple != ssa.Value(inner) || e0.Index != 0 || e1.Index != 1 {
+					fwd = false
+				}
+			}
+			if !fwd {
+				continue
+			}
+			bind := map[ssa.Value]ssa.Value{}
+			for k, p := range h.Params {
+				if k < len(hc.Call.Args) {
+					bind[p] = hc.Call.Args[k]
+				}
+			}
+			ia := core.CallArgs(inner)
+			tcp = hc
+			tcpArgsOK = bind[ia[1]] == ssa.Value(ctxP) && bind[ia[2]] == ssa.Value(qP)
 		}
 	}
 	if udp == nil || tcp == nil {
 		c.Bad("legs", fn.Pos(), fn, "ExchangeContext calls the UDP transport u.u and the TCP transport u.t", fmt.Sprintf("udp=%v tcp=%v", udp != nil, tcp != nil))
 		return
 	}
-	ctxP, qP := fn.Params[1], fn.Params[2]
-	sameArgs := func(call *ssa.Call) bool {
-		return call.Call.Args[1] == ssa.Value(ctxP) && call.Call.Args[2] == ssa.Value(qP)
-	}
-	c.Check(sameArgs(udp), "udp-args", udp.Pos(), fn, "the UDP leg gets the caller's ctx and query", "")
-	c.Check(sameArgs(tcp), "tcp-same-query", tcp.Pos(), fn, "the TCP leg re-sends the same query with the same ctx", core.Expr(tcp))
+	ua := core.CallArgs(udp)
+	c.Check(ua[1] == ssa.Value(ctxP) && ua[2] == ssa.Value(qP), "udp-args", udp.Pos(), fn, "the UDP leg gets the caller's ctx and query", "")
+	c.Check(tcpArgsOK, "tcp-same-query", tcp.Pos(), fn, "the TCP leg re-sends the same query with the same ctx", core.Expr(tcp))
 	r, uerr := extractOf(udp, 0), extractOf(udp, 1)
 	if r == nil || uerr == nil {
 		c.Bad("udp-results", udp.Pos(), fn, "both results of the UDP exchange are used", "")
